@@ -24,6 +24,7 @@ package compile
 import (
 	"encoding/xml"
 	"fmt"
+	"sort"
 
 	"github.com/sdcio/yang-parser/parse"
 	"github.com/sdcio/yang-parser/schema"
@@ -215,7 +216,16 @@ func (c *Compiler) expandModule(module *parse.Module) {
 	if err := c.expandGroupings(nod, nod, schema.Current); err != nil {
 		c.error(nod, err)
 	}
-	for _, sm := range module.GetSubmodules() {
+	// In a fixed order: expansion edits the groupings in place, so which
+	// submodule is expanded first can decide what a later one sees.
+	submodules := module.GetSubmodules()
+	smNames := make([]string, 0, len(submodules))
+	for name := range submodules {
+		smNames = append(smNames, name)
+	}
+	sort.Strings(smNames)
+	for _, name := range smNames {
+		sm := submodules[name]
 		if err := c.expandGroupings(nod, sm, schema.Current); err != nil {
 			c.error(sm, err)
 		}
